@@ -26,6 +26,7 @@ func (d *DeleteAclsResponse) encode(pe packetEncoder) error {
 }
 
 func (d *DeleteAclsResponse) decode(pd packetDecoder, version int16) (err error) {
+	d.Version = version
 	throttleTime, err := pd.getInt32()
 	if err != nil {
 		return err
